@@ -661,6 +661,8 @@ impl Messages {
 pub struct CfgSites {
     /// every place a collection can start from: (file, enclosing fn, the call as written)
     pub collect_calls: Vec<(String, String, String)>,
+    pub intern_uses: Vec<(String, String, String)>,
+    pub intern_methods: Vec<String>,
     pub cfgs: Vec<(String, String, String, String, usize)>, // file, where, predicate, form, line
     pub fiber_writes: Vec<(String, String, usize, String, usize)>, // fn, field, ordinal, op, line
     pub fiber_inits: Vec<(String, String)>,
@@ -668,6 +670,8 @@ pub struct CfgSites {
 
 struct CfgSink {
     collect_calls: Vec<(String, String, String)>,
+    intern_uses: Vec<(String, String, String)>,
+    intern_methods: Vec<String>,
     cfgs: Vec<(String, String, String, String, usize)>,
     fiber_writes: Vec<(String, String, usize, String, usize)>,
     fiber_inits: Vec<(String, String)>,
@@ -773,6 +777,19 @@ impl SiteSink for CfgSink {
             }
             _ => {}
         }
+        // the string intern table: every method called on it, and every method it has
+        if let Expr::MethodCall(mc) = e {
+            let recv = compact(&toks(&*mc.receiver));
+            if recv.ends_with("string_store") {
+                self.intern_uses.push((ctx.file.clone(), ctx.fn_name(), mc.method.to_string()));
+            }
+        }
+        if ctx.impl_prefix.as_deref() == Some("ObjStringStore") {
+            let f = ctx.fn_name();
+            if !self.intern_methods.contains(&f) {
+                self.intern_methods.push(f);
+            }
+        }
         if !self.is_vm {
             return;
         }
@@ -843,6 +860,8 @@ impl SiteSink for CfgSink {
 pub fn cfg_sites(srcs: &[Src]) -> R<CfgSites> {
     let mut out = CfgSites {
         collect_calls: Vec::new(),
+        intern_uses: Vec::new(),
+        intern_methods: Vec::new(),
         cfgs: Vec::new(),
         fiber_writes: Vec::new(),
         fiber_inits: Vec::new(),
@@ -851,6 +870,8 @@ pub fn cfg_sites(srcs: &[Src]) -> R<CfgSites> {
     for s in srcs {
         let mut sink = CfgSink {
             collect_calls: Vec::new(),
+            intern_uses: Vec::new(),
+            intern_methods: Vec::new(),
             cfgs: Vec::new(),
             fiber_writes: Vec::new(),
             fiber_inits: Vec::new(),
@@ -865,6 +886,12 @@ pub fn cfg_sites(srcs: &[Src]) -> R<CfgSites> {
         }
         out.cfgs.extend(sink.cfgs);
         out.collect_calls.extend(sink.collect_calls);
+        out.intern_uses.extend(sink.intern_uses);
+        for m in sink.intern_methods {
+            if !out.intern_methods.contains(&m) {
+                out.intern_methods.push(m);
+            }
+        }
         out.fiber_writes.extend(sink.fiber_writes);
         out.fiber_inits.extend(sink.fiber_inits);
     }
@@ -956,6 +983,16 @@ impl CfgSites {
                 .map(|(f, w, c)| format!("({}, {}, {})", lean_str(f), lean_str(w), lean_str(c)))
                 .collect::<Vec<_>>(),
         );
+        l.comment("");
+        l.comment("Every method call on the string intern table (`…string_store.m(..)`; verif_hooks / test items stripped): (file, enclosing fn, method).");
+        l.def_list(
+            "internUses",
+            "List (String × String × String)",
+            &self.intern_uses.iter().map(|(f, w, c)| format!("({}, {}, {})", lean_str(f), lean_str(w), lean_str(c))).collect::<Vec<_>>(),
+        );
+        l.comment("");
+        l.comment("The methods of `impl ObjStringStore` (those with a body that contains an expression).");
+        l.def_list("internMethods", "List String", &self.intern_methods.iter().map(|m| lean_str(m)).collect::<Vec<_>>());
         l.comment("");
         l.comment("Writes to Vm.fiber / Vm.unsafe_fiber in vm.rs (assignment, replace, take, …): (enclosing fn, field, ordinal within fn).");
         l.def_list(
